@@ -5,16 +5,22 @@
 (* as Spec, or separately):                                                *)
 (*                                                                         *)
 (* SpecCfg: the configuration family.  A configuration is                  *)
-(*   [kind, n, variant, mu, lam, bc, coef]: kind "cart" | "simplex",       *)
-(*   n = cells per direction (an element of Sizes), variant "plain" |      *)
-(*   "perturbed"                                                           *)
-(*   (lattice perturbation / integer shear keeping faces planar - made by  *)
+(*   [kind, n, variant, mu, lam, bc, coef]: kind "cart" | "simplex" |      *)
+(*   "prism", n = cells per direction (an element of Sizes; kind "prism":  *)
+(*   an element of PrismSizes, <<nx, ny, layers>> = the structured         *)
+(*   triangle grid nx x ny extruded over `layers` layers - 2 nx ny layers  *)
+(*   triangular prisms, i.e. cells whose faces have DIFFERENT node counts: *)
+(*   triangles at bottom / top, quadrilaterals on the sides), variant      *)
+(*   "plain" | "perturbed"                                                 *)
+(*   (lattice perturbation / integer shear keeping faces planar; prisms:   *)
+(*   lattice-perturbed base and non-uniform layer heights - made by        *)
 (*   the harness), integer Lame parameters, boundary mode "dir" (all       *)
 (*   Dirichlet) | "mix" (Dirichlet / Neumann mix, see SpecBc).  TLC emits  *)
 (*   every configuration; the harness builds the porepy grid and           *)
 (*   discretises.  At the stage where (mu, lam) are fixed the model laws   *)
-(*   are checked on three reference grids (quad + triangle, two tetrahedra *)
-(*   sharing a face, a box) for every displacement field of the family:    *)
+(*   are checked on four reference grids (quad + triangle, two tetrahedra  *)
+(*   sharing a face, a box, two triangular prisms sharing a quadrilateral  *)
+(*   face) for every displacement field of the family:                     *)
 (*   equilibrium of the exact tractions per cell, zero traction for        *)
 (*   translations and rigid rotations, closedness of the pressure force.   *)
 (*                                                                         *)
@@ -32,8 +38,9 @@
 (***************************************************************************)
 EXTENDS MechOracle, SequencesExt, Json, IOUtils
 
-CONSTANTS Kinds,      \* subset of {"cart", "simplex"}
-          Sizes,      \* set of tuples: cells per direction, <<nx, ny>> or <<nx, ny, nz>>
+CONSTANTS Kinds,      \* subset of {"cart", "simplex", "prism"}
+          Sizes,      \* set of tuples: cells per direction, <<nx, ny>> or <<nx, ny, nz>> (kinds "cart", "simplex")
+          PrismSizes, \* set of tuples <<nx, ny, layers>> (kind "prism"; {} if the kind is not enumerated)
           Variants,   \* subset of {"plain", "perturbed"}
           Mus, Lams,  \* sets of integers
           BcModes,    \* subset of {"dir", "mix"}
@@ -61,14 +68,23 @@ RefBox == [dim |-> 3,
            nodes |-> << <<0, 0, 0>>, <<2, 0, 0>>, <<0, 1, 0>>, <<2, 1, 0>>, <<0, 0, 3>>, <<2, 0, 3>>, <<0, 1, 3>>, <<2, 1, 3>> >>,
            fn |-> << <<1, 5, 7, 3>>, <<2, 4, 8, 6>>, <<1, 2, 6, 5>>, <<3, 7, 8, 4>>, <<1, 3, 4, 2>>, <<5, 6, 8, 7>> >>,
            cf |-> << << <<1, 1>>, <<2, 1>>, <<3, 1>>, <<4, 1>>, <<5, 1>>, <<6, 1>> >> >>]
-RefGrids == <<RefQuadTri, RefTets, RefBox>>
+\* two triangular prisms (base triangles (0,0) (3,0) (1,2) and (3,0) (4,3) (1,2), z = 0..2) sharing the quadrilateral
+\* face 4: triangular and quadrilateral faces in one grid
+RefPrisms == [dim |-> 3,
+              nodes |-> << <<0, 0, 0>>, <<3, 0, 0>>, <<1, 2, 0>>, <<4, 3, 0>>, <<0, 0, 2>>, <<3, 0, 2>>, <<1, 2, 2>>, <<4, 3, 2>> >>,
+              fn |-> << <<3, 2, 1>>, <<5, 6, 7>>, <<1, 2, 6, 5>>, <<2, 3, 7, 6>>, <<3, 1, 5, 7>>,
+                        <<3, 4, 2>>, <<6, 8, 7>>, <<2, 4, 8, 6>>, <<4, 3, 7, 8>> >>,
+              cf |-> << << <<1, 1>>, <<2, 1>>, <<3, 1>>, <<4, 1>>, <<5, 1>> >>,
+                        << <<6, 1>>, <<7, 1>>, <<8, 1>>, <<9, 1>>, <<4, -1>> >> >>]
+RefGrids == <<RefQuadTri, RefTets, RefBox, RefPrisms>>
 
 \* ---- SpecCfg ---------------------------------------------------------------------------------------------
 InitCfg == stage = "lame" /\ cs = [mu |-> 0, lam |-> 0]
 PickLame == /\ stage = "lame" /\ stage' = "grid"
             /\ \E m \in Mus, l \in Lams : cs' = [mu |-> m, lam |-> l]
+SizesOf(k) == IF k = "prism" THEN PrismSizes ELSE Sizes
 PickGrid == /\ stage = "grid" /\ stage' = "done"
-            /\ \E k \in Kinds, n \in Sizes, v \in Variants, b \in BcModes, co \in Coefs :
+            /\ \E k \in Kinds : \E n \in SizesOf(k), v \in Variants, b \in BcModes, co \in Coefs :
                  cs' = [kind |-> k, n |-> n, variant |-> v, mu |-> cs.mu, lam |-> cs.lam, bc |-> b, coef |-> co]
 NextCfg == PickLame \/ PickGrid
 SpecCfg == InitCfg /\ [][NextCfg]_evars
@@ -94,8 +110,10 @@ LawsCfg == stage = "grid" =>
        /\ \A a \in 1..Len(AlphaCat) :
             /\ \A c \in 1..NCells(Gr) : GradPClosed(Gr, E, AlphaCat[a], 3, c)
             /\ GradPTable(Wn, AlphaCat[a], 3) = [f \in 1..NFaces(Gr) |-> ExactGradP(E, AlphaCat[a], 3, f)]
-\* the family contains translations, rotations and strains
+\* the family contains translations, rotations and strains; the prism reference grid really has faces with different
+\* node counts, both kinds on the boundary
 LawFamily == stage = "grid" =>
+  /\ {Len(RefPrisms.fn[f]) : f \in BoundaryFaces(RefPrisms, [f2c |-> FaceCells(RefPrisms)])} = {3, 4}
   /\ \E k \in 1..Len(Fields) : IsTranslation(Fields[k])
   /\ \E k \in 1..Len(Fields) : IsSkew(Fields[k]) /\ ~IsTranslation(Fields[k])
   /\ \E k \in 1..Len(Fields) : Tr(Fields[k]) # 0
